@@ -162,6 +162,8 @@ def run_batch(prop, tier, seed, runs, procs, wall_cap, chunk=50, opts=None, quie
             while futs:
                 done = next(as_completed(list(futs), timeout=opts.get("chunk_timeout", 600) + 60))
                 futs.pop(done)
+                if done.cancelled():
+                    continue  # a chunk that had not started when the batch decided to stop
                 agg = done.result()
                 total["runs"] += agg["runs"]
                 total["nontrivial"] += agg["nontrivial"]
